@@ -322,9 +322,10 @@ def run(ctx, cfg):
         if fn == 'limit_df':
             start = ctx.real('start')
             ctx.assume(start >= 0)
-            ctx.assume(start <= 6)
+            ctx.assume(start <= 2)
             stop = ctx.real('stop')
             ctx.assume(stop >= start)
+            ctx.assume(stop <= 3)
             check_call(ctx, du.limit_df, [df, 2], dict(start=start, stop=stop), ['df', 'fs', 'start', 'stop'])
         elif fn == 'epoch_df':
             e = ctx.integer('epoch_len')
